@@ -142,7 +142,22 @@ def run_harness(crate, test_path, script_text, tag, env=None, timeout=1800):
     if env:
         e.update(env)
     cwd = os.path.join(REPO, "crates", crate)
-    p = sh([exes[crate], test_path, "--exact", "--test-threads=1"], cwd=cwd, env=e, timeout=timeout)
+    p = None
+    for attempt in range(4):
+        try:
+            p = sh([exes[crate], test_path, "--exact", "--test-threads=1"], cwd=cwd, env=e, timeout=timeout)
+            break
+        except OSError as ex:
+            # ENOENT / ETXTBSY: another check's cargo invocation is relinking this very test binary
+            # (checks started together share /repo/target).  Wait for that cargo run to finish
+            # (the lock), ask cargo again where the binary is, and retry.
+            log("[harness] test binary of %s not runnable (%s); waiting for cargo and retrying" % (crate, ex))
+            global _built
+            time.sleep(5 + 10 * attempt)
+            _built = None
+            exes = cargo_build()
+    if p is None:
+        raise TieBroken("test binary of %s could not be executed after 4 attempts" % crate)
     if p.returncode != 0 or not os.path.exists(outp):
         raise TieBroken("harness %s::%s failed rc=%s\n%s\n%s" % (
             crate, test_path, p.returncode, p.stdout.decode(errors="replace")[-3000:],
@@ -427,7 +442,23 @@ def coqchk(pid, timeout=900):
     return {"ok": p.returncode == 0, "axioms": re.sub(r"\s+", " ", axioms)[:2000], "tail": out[-1500:]}
 
 
-def proof_coverage(res, pid, extra_tb=(), open_statements=()):
+def kernel_coverage(kernel_modules):
+    """The kernels of the given generated modules (Kernels/<Module>.v) as tools/rs2v.py regenerated
+    them from the Rust sources in THIS run: name, source position, Coq name.  They are tied to the
+    model by the keq_ lemmas of Kernels/KernelEq*.v and pinned by `Cxx_kernel(s)_tied`."""
+    kern = coq_build().get("kernels", {})
+    mine = [k for k in kern.get("kernels", []) if k.get("coq", "").split(".")[0] in kernel_modules]
+    out = {"modules": list(kernel_modules),
+           "regenerated_from_source": [{kk: k[kk] for kk in ("name", "source", "coq", "fragment_of") if kk in k}
+                                       for k in mine],
+           "translator_ok": bool(kern.get("ok")) and
+           all(any(k["coq"].startswith(m + ".") for k in mine) for m in kernel_modules)}
+    if not kern.get("ok"):
+        out["translator_error"] = kern.get("error", "")[:1000]
+    return out
+
+
+def proof_coverage(res, pid, extra_tb=(), open_statements=(), kernel_modules=()):
     """Run the proof side for `pid`; fill coverage keys; on failure register a violation
     (caller may later replace it by one with a concrete input)."""
     pr = check_property_file(pid)
@@ -446,6 +477,8 @@ def proof_coverage(res, pid, extra_tb=(), open_statements=()):
         "trusted_base": trusted_base(pr, extra_tb),
         "open_statements": list(open_statements),
     })
+    if kernel_modules:
+        res.coverage["kernels"] = kernel_coverage(kernel_modules)
     return pr
 
 
@@ -481,6 +514,7 @@ class CaseCheck:
     open_statements = ()
     extra_tb = ()
     assumptions = ()
+    kernel_modules = ()  # generated modules Kernels/<Module>.v whose keq_ lemmas Properties/<pid>.v pins
 
     def corpus_cases(self):
         p = os.path.join(VERIF, "harness", "corpus", self.pid + ".json")
@@ -539,7 +573,7 @@ class CaseCheck:
     def run(self, tier, seed, replay=None):
         res = Result(self.pid, tier, seed)
         res.assumptions = list(self.assumptions)
-        pr = proof_coverage(res, self.pid, self.extra_tb, self.open_statements)
+        pr = proof_coverage(res, self.pid, self.extra_tb, self.open_statements, self.kernel_modules)
         try:
             if replay:
                 cases = [json.load(open(replay))["case"]]
